@@ -427,23 +427,34 @@ def model_terms(sc, res):
     return terms
 
 
-def run_model(term_list):
-    """term_list: [(key, term)] -> (set of keys whose term is not true, error text or None)"""
+def run_model(term_list, chunk=200, workers=8):
+    """term_list: [(key, term)] -> (set of keys whose term is not true, error text or None).
+    The terms are evaluated by vm_compute under coqc, in chunks run in parallel."""
     if not term_list: return set(), None
+    from concurrent.futures import ThreadPoolExecutor
     d = tempfile.mkdtemp(prefix='nbv_c17_coq_')
-    try:
-        src = PRELUDE.replace('(*FACTS*)', src_facts_text()) + 'Definition cases : list (nat * bool) := [\n' + ';\n'.join('(%d, %s)' % (i, t) for i, (_, t) in enumerate(term_list)) + '].\n'
+    pre = PRELUDE.replace('(*FACTS*)', src_facts_text())
+    chunks = [term_list[i:i + chunk] for i in range(0, len(term_list), chunk)]
+    def one(k):
+        sub = os.path.join(d, 'c%d' % k); os.makedirs(sub)
+        src = pre + 'Definition cases : list (nat * bool) := [\n' + ';\n'.join('(%d, %s)' % (i, t) for i, (_, t) in enumerate(chunks[k])) + '].\n'
         src += 'Definition bad := map fst (filter (fun p => negb (snd p)) cases).\nEval vm_compute in bad.\n'
-        open(os.path.join(d, 'cases.v'), 'w').write(src)
-        p = subprocess.run(['timeout', '900', 'coqc', '-Q', core.COQ, 'NB', 'cases.v'], cwd=d, capture_output=True, text=True)
-        if p.returncode != 0:
-            return None, (p.stderr + p.stdout)[-1500:]
+        open(os.path.join(sub, 'cases.v'), 'w').write(src)
+        p = subprocess.run(['timeout', '900', 'coqc', '-Q', core.COQ, 'NB', 'cases.v'], cwd=sub, capture_output=True, text=True)
+        if p.returncode != 0: return None, (p.stderr + p.stdout)[-1500:]
         m = re.search(r'=\s*(\[[^\]]*\]|nil)', p.stdout.replace('\n', ' '))
         if not m: return None, 'unparsable coqc output: ' + p.stdout[-500:]
-        idx = [int(x) for x in re.findall(r'\d+', m.group(1))]
-        return {term_list[i][0] for i in idx}, None
+        return {chunks[k][int(x)][0] for x in re.findall(r'\d+', m.group(1))}, None
+    try:
+        with ThreadPoolExecutor(max_workers=workers) as ex:
+            outs = list(ex.map(one, range(len(chunks))))
     finally:
         shutil.rmtree(d, ignore_errors=True)
+    bad = set()
+    for b_, err in outs:
+        if b_ is None: return None, err
+        bad |= b_
+    return bad, None
 
 
 def model_value(call):
@@ -482,34 +493,6 @@ def strip(sc):
 OWN_CLOSURE = ['Base/Json.v', 'Sys/GitRefs.v', 'Gen/GitRefsFacts.v', 'Sys/GitRefsProofs.v', 'Props/C17.v']
 
 
-def own_build(b):
-    """The shared build (every member's translators and files) failed.  If that is not this property's doing, bring this
-    property's own closure up to date directly (same lock, same coqc, same -Q mapping), so that somebody else's broken
-    file is not reported as a broken C17 obligation."""
-    import fcntl
-    lock = open(os.path.join(core.VERIF, '.coq-build.lock'), 'w')
-    fcntl.flock(lock, fcntl.LOCK_EX)
-    try:
-        p = subprocess.run([os.path.join(core.VERIF, 'tools', 'gen', 'gen_gitrefs.py')], capture_output=True, text=True,
-                           env=dict(os.environ, NBDIME_REPO=core.REPO))
-        if p.returncode != 0:
-            b.ok = False; b.gen_error = (p.stderr + p.stdout)[-2000:]; return b
-        b.gen_error = None
-        newest = 0.0
-        for f in OWN_CLOSURE:
-            src = os.path.join(core.COQ, f); vo = src[:-2] + '.vo'
-            if not os.path.exists(vo) or os.path.getmtime(vo) < max(os.path.getmtime(src), newest):
-                p = subprocess.run(['timeout', '600', 'coqc', '-Q', '.', 'NB', '-w', '-notation-overridden,-deprecated-hint-without-locality', f],
-                                   cwd=core.COQ, capture_output=True, text=True)
-                if p.returncode != 0:
-                    b.ok = False; b.failed_file = f; b.log = (p.stdout + p.stderr)[-3000:]; return b
-            newest = max(newest, os.path.getmtime(vo))
-        b.ok = True; b.failed_file = None
-        return b
-    finally:
-        fcntl.flock(lock, fcntl.LOCK_UN); lock.close()
-
-
 def isolated_build():
     """C17_ISOLATED=1 (development aid, used for the mutation experiments while other members' builds hold the shared
     lock): compile this property's closure in a private copy of the five files, with facts generated from NBDIME_REPO, and
@@ -540,9 +523,10 @@ def run(tier, seed):
     iso = None
     if os.environ.get('C17_ISOLATED') == '1':
         b, iso = isolated_build()
+        core.build_targets = lambda targets, locked=False: b      # the private closure is already compiled (or failed)
         chk.notes.append('C17_ISOLATED=1: proof obligations checked in a private copy of the closure')
     else:
-        b = own_build(core.build())
+        b = core.build()        # regenerates Gen/*.v; the closure of Props/C17.v is built by proof_obligations below
     try:
         return run_checked(chk, b, tier)
     finally:
